@@ -574,16 +574,21 @@ class FormulaEngine3Phase(Generic[QuantityT]):
                 phase_3 = await phase_3_rx.receive()
                 # Each per-phase engine synchronizes only its own inputs, so the
                 # three of them can start at different timestamps.  Skip the
-                # samples of the phases that started earlier.
-                latest_ts = max(
-                    phase_1.timestamp, phase_2.timestamp, phase_3.timestamp
-                )
-                while phase_1.timestamp < latest_ts:
-                    phase_1 = await phase_1_rx.receive()
-                while phase_2.timestamp < latest_ts:
-                    phase_2 = await phase_2_rx.receive()
-                while phase_3.timestamp < latest_ts:
-                    phase_3 = await phase_3_rx.receive()
+                # samples of the phases that started earlier.  A phase that is
+                # catching up can overshoot (when its receiver dropped samples
+                # while waiting for the others), so repeat until all agree.
+                while not (
+                    phase_1.timestamp == phase_2.timestamp == phase_3.timestamp
+                ):
+                    latest_ts = max(
+                        phase_1.timestamp, phase_2.timestamp, phase_3.timestamp
+                    )
+                    while phase_1.timestamp < latest_ts:
+                        phase_1 = await phase_1_rx.receive()
+                    while phase_2.timestamp < latest_ts:
+                        phase_2 = await phase_2_rx.receive()
+                    while phase_3.timestamp < latest_ts:
+                        phase_3 = await phase_3_rx.receive()
                 msg = Sample3Phase(
                     phase_1.timestamp,
                     phase_1.value,
